@@ -72,7 +72,7 @@ Proof.
   intro n. unfold merge, empty_obj. destruct (json_eqb (JObj []) (JObj n)) eqn:E.
   - apply json_eqb_eq in E. exact E.
   - simpl. destruct n as [|kv n]; [reflexivity|]. simpl. f_equal.
-    apply (filter_all _ (fun kv0 => negb (amem (fst kv0) [])) (kv :: n)). intros x _. reflexivity.
+    apply (filter_all _ (fun kv0 : str * json => negb (@amem json (fst kv0) [])) (kv :: n)). intros x _. reflexivity.
 Qed.
 
 (* ------------------------------------------------------------------ the simulation invariant *)
@@ -117,3 +117,397 @@ Lemma hinv_frame : forall B U B' U' f m,
   nlookup f (buf B') = nlookup f (buf B) -> nlookup f (files B') = nlookup f (files B) ->
   nlookup f (files U') = nlookup f (files U) -> hinv B U f m -> hinv B' U' f m.
 Proof. intros B U B' U' f m H1 H2 H3 H. unfold hinv in *. rewrite H1, H2, H3. exact H. Qed.
+
+Section Sim.
+  Variable frepr : fl -> str.
+  Notation flush_one := (flush_one merge).
+  Notation flush_all := (flush_all merge).
+  Notation check_capacity := (check_capacity frepr merge).
+  Notation set_capacity := (set_capacity frepr merge).
+  Notation load := (load frepr merge).
+  Notation save := (save frepr merge).
+  Notation cop := (cop frepr merge).
+  Notation cstep := (cstep frepr merge).
+  Notation crun := (crun frepr merge).
+
+  Lemma nset_lookup_id : forall (mm : list (N * (N * json))) h v x,
+    nlookup h mm = Some v -> nlookup x (nset h v mm) = nlookup x mm.
+  Proof.
+    intros mm h v x H. destruct (N.eq_dec h x) as [->|Hne]; nsimp; auto.
+  Qed.
+
+  Lemma flush_one_noop : forall B h,
+    (nlookup h (mems B) = None \/ exists f m, nlookup h (mems B) = Some (f, m) /\ nlookup f (buf B) = None) ->
+    flush_one B h = B.
+  Proof.
+    intros B h [H|(f & m & H1 & H2)]; unfold Doc.flush_one; [rewrite H|rewrite H1, H2]; reflexivity.
+  Qed.
+
+  Lemma flush_one_spec : forall B h f m e,
+    nlookup h (mems B) = Some (f, m) -> nlookup f (buf B) = Some e -> b_contents e = m ->
+    let B' := flush_one B h in
+    (forall x, nlookup x (mems B') = nlookup x (mems B)) /\
+    buf B' = nremove f (buf B) /\
+    files B' = (if json_eqb m (b_hash e) then files B else nset f m (files B)) /\
+    reg B' = reg B /\ depth B' = depth B /\ cap B' = cap B /\ caps B' = caps B.
+  Proof.
+    intros B h f m e Hm He Hc. cbv zeta. unfold Doc.flush_one. rewrite Hm, He, Hc, merge_same.
+    destruct (json_eqb m (b_hash e)); simpl; repeat split; auto.
+    intro x. apply nset_lookup_id. exact Hm.
+  Qed.
+
+  Lemma is_obj_not_null : forall m, is_obj m -> m <> JNull.
+  Proof. intros m [o ->]. discriminate. Qed.
+
+  Lemma flush_one_inv : forall B U h, Inv0 B U -> Inv0 (flush_one B h) U.
+  Proof.
+    intros B U h I.
+    destruct (nlookup h (mems B)) as [[f m]|] eqn:Hm; [|rewrite flush_one_noop; auto].
+    destruct (nlookup f (buf B)) as [e|] eqn:He; [|rewrite flush_one_noop; eauto].
+    pose proof (i_h B U I h f m Hm) as Hh. unfold hinv in Hh. rewrite He in Hh.
+    destruct Hh as (Hobj & Hc & H0 & Hcd).
+    destruct (flush_one_spec B h f m e Hm He Hc) as (Sm & Sb & Sf & Sr & Sd & _).
+    set (B' := flush_one B h) in *.
+    constructor.
+    - apply (i_depthU B U I).
+    - intro x. rewrite Sm. apply (i_mems B U I).
+    - intros x x' f0 m0 m0'. rewrite !Sm. apply (i_inj B U I).
+    - intros x f0 m0 Hx. rewrite Sm in Hx.
+      destruct (N.eq_dec f0 f) as [->|Hne].
+      + assert (x = h) by (eapply (i_inj B U I); eauto). subst x. rewrite Hm in Hx. inversion Hx; subst m0.
+        unfold hinv. split; [exact Hobj|]. rewrite Sb, Sf. nsimp.
+        destruct (json_eqb m (b_hash e)) eqn:E.
+        * apply json_eqb_eq in E.
+          destruct H0 as [[Hn Hj]|Hs].
+          -- (* no file in B and nothing was written *)
+             assert (Hme : m = empty_obj).
+             { destruct Hj as [Hj|Hj]; [exfalso; apply (is_obj_not_null m Hobj); congruence|congruence]. }
+             destruct Hcd as [[_ [Hu|[Hu _]]]|Hu].
+             ++ right. auto.
+             ++ left. split; [congruence|]. rewrite Hu. exact Hme.
+             ++ right. auto.
+          -- rewrite <- E in Hs.
+             destruct Hcd as [[_ [Hu|[Hu Hb]]]|Hu].
+             ++ left. split; [congruence|]. rewrite Hu. split; [apply merge_same|exact Hobj].
+             ++ congruence.
+             ++ left. split; [congruence|]. rewrite Hu. split; [apply merge_same|exact Hobj].
+        * (* the buffered data is written *)
+          nsimp. destruct Hcd as [[Hhm _]|Hu].
+          -- exfalso. rewrite Hhm, json_eqb_refl in E. discriminate.
+          -- left. split; [congruence|]. rewrite Hu. split; [apply merge_same|exact Hobj].
+      + eapply hinv_frame; [| | |apply (i_h B U I x f0 m0 Hx)].
+        * rewrite Sb. nsimp. reflexivity.
+        * rewrite Sf. destruct (json_eqb m (b_hash e)); nsimp; reflexivity.
+        * reflexivity.
+    - intros f0 Hf0. rewrite Sf.
+      assert (Hne : f0 <> f) by (intro Heq; apply (Hf0 h m); rewrite Sm, Heq; exact Hm).
+      destruct (json_eqb m (b_hash e)); nsimp; apply (i_free B U I); intros x mx; rewrite <- Sm; apply Hf0.
+    - intros f0 e0 H. rewrite Sb in H. rewrite Sr.
+      destruct (N.eq_dec f f0) as [->|Hne]; [rewrite nlookup_nremove_same in H; discriminate|].
+      rewrite nlookup_nremove_other in H by exact Hne.
+      destruct (i_reg B U I f0 e0 H) as (x & mx & Hin & Hx). exists x, mx. rewrite Sm. auto.
+  Qed.
+
+  (* flush_one never creates an entry, and removes the one of its own file *)
+  Lemma flush_one_buf : forall B h f0 e0,
+    nlookup f0 (buf (flush_one B h)) = Some e0 -> nlookup f0 (buf B) = Some e0.
+  Proof.
+    intros B h f0 e0 H. unfold Doc.flush_one in H.
+    destruct (nlookup h (mems B)) as [[f m]|]; [|exact H].
+    destruct (nlookup f (buf B)) as [e|] eqn:He; [|exact H].
+    destruct (json_eqb m (b_hash e)); simpl in H.
+    - destruct (N.eq_dec f f0) as [->|Hne]; [rewrite nlookup_nremove_same in H; discriminate|].
+      rewrite nlookup_nremove_other in H by exact Hne. exact H.
+    - destruct (N.eq_dec f f0) as [->|Hne]; [rewrite nlookup_nremove_same in H; discriminate|].
+      rewrite nlookup_nremove_other in H by exact Hne. exact H.
+  Qed.
+
+  Lemma flush_one_own : forall B h f m,
+    nlookup h (mems B) = Some (f, m) -> nlookup f (buf (flush_one B h)) = None.
+  Proof.
+    intros B h f m Hm. unfold Doc.flush_one. rewrite Hm.
+    destruct (nlookup f (buf B)) as [e|] eqn:He; [|exact He].
+    destruct (json_eqb m (b_hash e)); simpl; apply nlookup_nremove_same.
+  Qed.
+
+  Lemma flush_fold_inv : forall l B U, Inv0 B U -> Inv0 (fold_left flush_one l B) U.
+  Proof. induction l as [|h l IH]; intros B U I; simpl; [exact I|]. apply IH. apply flush_one_inv. exact I. Qed.
+
+  Lemma flush_fold_buf : forall l B f0 e0,
+    nlookup f0 (buf (fold_left flush_one l B)) = Some e0 -> nlookup f0 (buf B) = Some e0.
+  Proof.
+    induction l as [|h l IH]; intros B f0 e0 H; simpl in H; [exact H|].
+    apply IH in H. eapply flush_one_buf. exact H.
+  Qed.
+
+  Lemma flush_fold_mems : forall l B U x, Inv0 B U -> nlookup x (mems (fold_left flush_one l B)) = nlookup x (mems B).
+  Proof.
+    induction l as [|h l IH]; intros B U x I; simpl; [reflexivity|].
+    rewrite (IH _ U x (flush_one_inv B U h I)).
+    rewrite (i_mems _ _ (flush_one_inv B U h I)). symmetry. apply (i_mems B U I).
+  Qed.
+
+  Lemma flush_fold_clears : forall l B U h f m,
+    Inv0 B U -> In h l -> nlookup h (mems B) = Some (f, m) -> nlookup f (buf (fold_left flush_one l B)) = None.
+  Proof.
+    induction l as [|x l IH]; intros B U h f m I Hin Hm; [contradiction|]. simpl.
+    destruct Hin as [->|Hin].
+    - destruct (nlookup f (buf (fold_left flush_one l (flush_one B h)))) as [e|] eqn:E; [|reflexivity].
+      apply flush_fold_buf in E. rewrite (flush_one_own B h f m Hm) in E. discriminate.
+    - apply (IH _ U h f m (flush_one_inv B U x I) Hin).
+      rewrite (i_mems _ _ (flush_one_inv B U x I)). rewrite <- (i_mems B U I). exact Hm.
+  Qed.
+
+  Lemma with_reg_inv : forall B U r,
+    Inv0 B U -> (forall f, nlookup f (buf B) = None) -> Inv0 (with_reg B r) U.
+  Proof.
+    intros B U r I Hn. constructor; simpl; try apply I.
+    intros f e H. rewrite Hn in H. discriminate.
+  Qed.
+
+  Lemma flush_all_inv : forall B U, Inv0 B U -> Inv0 (flush_all B) U /\ forall f, nlookup f (buf (flush_all B)) = None.
+  Proof.
+    intros B U I. unfold Doc.flush_all.
+    assert (Hn : forall f, nlookup f (buf (fold_left flush_one (rev (reg B)) B)) = None).
+    { intro f. destruct (nlookup f (buf (fold_left flush_one (rev (reg B)) B))) as [e|] eqn:E; [|reflexivity].
+      pose proof (flush_fold_buf _ _ _ _ E) as E0.
+      destruct (i_reg B U I f e E0) as (h & m & Hin & Hm).
+      rewrite (flush_fold_clears (rev (reg B)) B U h f m I) in E; [discriminate| |exact Hm].
+      apply in_rev. rewrite rev_involutive. exact Hin. }
+    split; [apply with_reg_inv; [apply flush_fold_inv; exact I|exact Hn]|exact Hn].
+  Qed.
+
+  (* ---- bookkeeping steps ---- *)
+  Lemma flush_one_depth : forall B h, depth (flush_one B h) = depth B.
+  Proof.
+    intros B h. unfold Doc.flush_one. destruct (nlookup h (mems B)) as [[f m]|]; [|reflexivity].
+    destruct (nlookup f (buf B)) as [e|]; [|reflexivity]. destruct (json_eqb m (b_hash e)); reflexivity.
+  Qed.
+
+  Lemma flush_fold_depth : forall l B, depth (fold_left flush_one l B) = depth B.
+  Proof. induction l as [|h l IH]; intro B; simpl; [reflexivity|]. rewrite IH. apply flush_one_depth. Qed.
+
+  Lemma flush_all_depth : forall B, depth (flush_all B) = depth B.
+  Proof. intro B. unfold Doc.flush_all. simpl. apply flush_fold_depth. Qed.
+
+  Lemma flush_all_mems : forall B U x, Inv0 B U -> nlookup x (mems (flush_all B)) = nlookup x (mems B).
+  Proof. intros B U x I. unfold Doc.flush_all. simpl. apply (flush_fold_mems _ B U x I). Qed.
+
+  Lemma register_inv : forall B U h, Inv0 B U -> Inv0 (register B h) U.
+  Proof.
+    intros B U h I. unfold register. destruct (nmem h (reg B)); [exact I|].
+    constructor; simpl; try apply I.
+    intros f e H. destruct (i_reg B U I f e H) as (x & m & Hin & Hx). exists x, m. split; [apply in_or_app; auto|exact Hx].
+  Qed.
+
+  Lemma check_capacity_inv : forall B U, Inv0 B U ->
+    Inv0 (check_capacity B) U /\ depth (check_capacity B) = depth B /\
+    (forall x, nlookup x (mems (check_capacity B)) = nlookup x (mems B)) /\
+    ((forall f, nlookup f (buf B) = None) -> forall f, nlookup f (buf (check_capacity B)) = None).
+  Proof.
+    intros B U I. unfold Doc.check_capacity. destruct (cap B <? bsize frepr B)%N.
+    - destruct (flush_all_inv B U I) as [I' Hn].
+      split; [exact I'|]. split; [apply flush_all_depth|]. split; [intro x; apply (flush_all_mems B U x I)|auto].
+    - split; [exact I|]. split; [reflexivity|]. split; auto.
+  Qed.
+
+  Lemma with_cap_inv : forall B U c, Inv0 B U -> Inv0 (with_cap B c) U.
+  Proof. intros B U c I. constructor; simpl; apply I. Qed.
+  Lemma with_caps_inv : forall B U c, Inv0 B U -> Inv0 (with_caps B c) U.
+  Proof. intros B U c I. constructor; simpl; apply I. Qed.
+  Lemma with_depth_inv : forall B U c, Inv0 B U -> Inv0 (with_depth B c) U.
+  Proof. intros B U c I. constructor; simpl; apply I. Qed.
+
+  Lemma set_capacity_inv : forall B U c, Inv0 B U ->
+    Inv0 (set_capacity B c) U /\ depth (set_capacity B c) = depth B /\
+    ((forall f, nlookup f (buf B) = None) -> forall f, nlookup f (buf (set_capacity B c)) = None).
+  Proof.
+    intros B U c I. unfold Doc.set_capacity. destruct (c <? bsize frepr (with_cap B c))%N.
+    - destruct (flush_all_inv (with_cap B c) U (with_cap_inv B U c I)) as [I' Hn].
+      split; [exact I'|]. split; [rewrite flush_all_depth; reflexivity|auto].
+    - split; [apply with_cap_inv; exact I|]. split; [reflexivity|auto].
+  Qed.
+
+  (* writing back the value a collection already holds changes no lookup *)
+  Lemma set_mem_id_inv : forall B U h f m,
+    Inv0 B U -> nlookup h (mems B) = Some (f, m) -> Inv0 (set_mem B h f m) (set_mem U h f m).
+  Proof.
+    intros B U h f m I Hm.
+    assert (HmU : nlookup h (mems U) = Some (f, m)) by (rewrite <- (i_mems B U I); exact Hm).
+    assert (EB : forall x, nlookup x (mems (set_mem B h f m)) = nlookup x (mems B)) by (intro x; apply nset_lookup_id; exact Hm).
+    assert (EU : forall x, nlookup x (mems (set_mem U h f m)) = nlookup x (mems U)) by (intro x; apply nset_lookup_id; exact HmU).
+    constructor.
+    - apply I.
+    - intro x. rewrite EB, EU. apply I.
+    - intros x x' f0 m0 m0'. rewrite !EB. apply (i_inj B U I).
+    - intros x f0 m0 Hx. rewrite EB in Hx. apply (i_h B U I x f0 m0 Hx).
+    - intros f0 Hf0. apply (i_free B U I). intros x mx. rewrite <- EB. apply Hf0.
+    - intros f0 e0 H. destruct (i_reg B U I f0 e0 H) as (x & mx & Hin & Hx). exists x, mx. rewrite EB. auto.
+  Qed.
+
+  (* only collection h (file f) changed *)
+  Lemma Inv0_update : forall B U B' U' h f m0 m',
+    Inv0 B U -> nlookup h (mems B) = Some (f, m0) ->
+    depth U' = 0%nat ->
+    (forall x, nlookup x (mems B') = if N.eqb x h then Some (f, m') else nlookup x (mems B)) ->
+    (forall x, nlookup x (mems U') = if N.eqb x h then Some (f, m') else nlookup x (mems U)) ->
+    (forall f0, f0 <> f -> nlookup f0 (buf B') = nlookup f0 (buf B) /\ nlookup f0 (files B') = nlookup f0 (files B)
+                          /\ nlookup f0 (files U') = nlookup f0 (files U)) ->
+    hinv B' U' f m' ->
+    (forall x, In x (reg B) -> In x (reg B')) ->
+    (forall e, nlookup f (buf B') = Some e -> In h (reg B')) ->
+    Inv0 B' U'.
+  Proof.
+    intros B U B' U' h f m0 m' I Hm HdU EB EU Hfr Hh Hreg Hregf.
+    assert (Hfile : forall x f0 m1, nlookup x (mems B') = Some (f0, m1) ->
+              (x = h /\ f0 = f /\ m1 = m') \/ (x <> h /\ nlookup x (mems B) = Some (f0, m1) /\ f0 <> f)).
+    { intros x f0 m1 Hx. rewrite EB in Hx. destruct (N.eqb x h) eqn:E.
+      - apply N.eqb_eq in E. inversion Hx. auto.
+      - apply N.eqb_neq in E. right. split; [exact E|]. split; [exact Hx|].
+        intro; subst f0. apply E. eapply (i_inj B U I); eauto. }
+    constructor.
+    - exact HdU.
+    - intro x. rewrite EB, EU. destruct (N.eqb x h); [reflexivity|apply I].
+    - intros x x' f0 m1 m1' Hx Hx'.
+      destruct (Hfile _ _ _ Hx) as [(-> & -> & _)|(Hn & Hb & Hf)]; destruct (Hfile _ _ _ Hx') as [(-> & Hf' & _)|(Hn' & Hb' & Hf')]; auto; try congruence.
+      eapply (i_inj B U I); eauto.
+    - intros x f0 m1 Hx. destruct (Hfile _ _ _ Hx) as [(-> & -> & ->)|(Hn & Hb & Hf)]; [exact Hh|].
+      destruct (Hfr f0 Hf) as (F1 & F2 & F3).
+      eapply hinv_frame; [exact F1|exact F2|exact F3|apply (i_h B U I x f0 m1 Hb)].
+    - intros f0 Hf0.
+      assert (Hne : f0 <> f).
+      { intro; subst f0. apply (Hf0 h m'). rewrite EB, N.eqb_refl. reflexivity. }
+      destruct (Hfr f0 Hne) as (_ & F2 & F3). rewrite F2, F3. apply (i_free B U I).
+      intros x mx Hx. apply (Hf0 x mx). rewrite EB. destruct (N.eqb x h) eqn:E; [|exact Hx].
+      apply N.eqb_eq in E. subst x. rewrite Hm in Hx. inversion Hx. congruence.
+    - intros f0 e0 H. destruct (N.eq_dec f0 f) as [->|Hne].
+      + exists h, m'. split; [apply (Hregf e0 H)|]. rewrite EB, N.eqb_refl. reflexivity.
+      + destruct (Hfr f0 Hne) as (F1 & _ & _). rewrite F1 in H.
+        destruct (i_reg B U I f0 e0 H) as (x & mx & Hin & Hx). exists x, mx. split; [apply Hreg; exact Hin|].
+        rewrite EB. destruct (N.eqb x h) eqn:E; [|exact Hx].
+        apply N.eqb_eq in E. subst x. rewrite Hm in Hx. inversion Hx. congruence.
+  Qed.
+
+  Lemma set_mem_lookup : forall st h f m x,
+    nlookup x (mems (set_mem st h f m)) = if N.eqb x h then Some (f, m) else nlookup x (mems st).
+  Proof.
+    intros st h f m x. unfold set_mem. simpl. destruct (N.eqb x h) eqn:E.
+    - apply N.eqb_eq in E. subst. apply nlookup_nset_same.
+    - apply N.eqb_neq in E. apply nlookup_nset_other. auto.
+  Qed.
+
+  Lemma in_register : forall st h, In h (reg (register st h)).
+  Proof.
+    intros st h. unfold register. destruct (nmem h (reg st)) eqn:E.
+    - unfold nmem in E. apply existsb_exists in E. destruct E as (x & Hx & E). apply N.eqb_eq in E. subst. exact Hx.
+    - simpl. apply in_or_app. right. left. reflexivity.
+  Qed.
+
+  Lemma register_mono : forall st h x, In x (reg st) -> In x (reg (register st h)).
+  Proof. intros st h x H. unfold register. destruct (nmem h (reg st)); [exact H|]. simpl. apply in_or_app. auto. Qed.
+
+  (* what an unbuffered load does, on both sides *)
+  Lemma hinv_noentry_load : forall B U f m,
+    hinv B U f m -> nlookup f (buf B) = None ->
+    let m' := merge_opt merge m (nlookup f (files B)) in
+    merge_opt merge m (nlookup f (files U)) = m' /\ is_obj m' /\
+    (forall v, nlookup f (files U) = Some v -> v = m') /\
+    ((nlookup f (files B) = nlookup f (files U) /\ insync m' (nlookup f (files U)))
+     \/ (nlookup f (files B) = None /\ nlookup f (files U) = Some m' /\ m' = empty_obj)).
+  Proof.
+    intros B U f m [Hobj Hh] Hb. rewrite Hb in Hh. cbv zeta.
+    destruct Hh as [[Hf Hs]|(Hfb & Hfu & He)].
+    - rewrite Hf. split; [reflexivity|]. destruct (nlookup f (files U)) as [v|] eqn:Ev; simpl in *.
+      + destruct Hs as [Hmv Hov]. rewrite Hmv. split; [exact Hov|]. split; [intros v0 E0; inversion E0; reflexivity|].
+        left. split; [reflexivity|]. split; [apply merge_same|exact Hov].
+      + split; [exact Hobj|]. split; [discriminate|]. left. auto.
+    - rewrite Hfb, Hfu. simpl. rewrite merge_same. split; [reflexivity|]. split; [exact Hobj|].
+      split; [intros v0 E0; inversion E0; reflexivity|]. right. auto.
+  Qed.
+
+  Lemma load_sim : forall B U h f m,
+    Inv B U -> nlookup h (mems B) = Some (f, m) ->
+    let '(B', mB) := load B h f m in
+    let '(U', mU) := load U h f m in
+    mB = mU /\ Inv B' U' /\ nlookup h (mems B') = Some (f, mB) /\ depth B' = depth B /\ is_obj mB.
+  Proof.
+    intros B U h f m [I Hd0] Hm.
+    pose proof (i_h B U I h f m Hm) as Hh.
+    unfold Doc.load. rewrite (i_depthU B U I).
+    destruct (depth B) as [|d] eqn:Ed.
+    - (* outside any block *)
+      specialize (Hd0 eq_refl).
+      destruct (hinv_noentry_load B U f m Hh (Hd0 f)) as (Em & Hobj & _ & Hst).
+      split; [symmetry; exact Em|]. rewrite Em. split; [|split; [rewrite set_mem_lookup, N.eqb_refl; reflexivity|split; [simpl; exact Ed|exact Hobj]]].
+      split.
+      + apply (Inv0_update B U _ _ h f m (merge_opt merge m (nlookup f (files B))) I Hm).
+        * apply (i_depthU B U I).
+        * intro x. apply set_mem_lookup.
+        * intro x. apply set_mem_lookup.
+        * intros f0 _. simpl. auto.
+        * unfold hinv. simpl. rewrite (Hd0 f). split; [exact Hobj|exact Hst].
+        * auto.
+        * intros e He. simpl in He. rewrite (Hd0 f) in He. discriminate.
+      + intros _ f0. simpl. apply Hd0.
+    - (* inside a block: through the buffer *)
+      unfold Doc.load_buffered.
+      destruct (nlookup f (buf B)) as [e|] eqn:He.
+      + (* the file is in the buffer *)
+        unfold hinv in Hh. rewrite He in Hh. destruct Hh as (Hobj & Hc & H0 & Hcd).
+        pose proof (register_inv B U h I) as I2.
+        assert (He2 : nlookup f (buf (register B h)) = Some e).
+        { unfold register. destruct (nmem h (reg B)); exact He. }
+        rewrite He2.
+        destruct (check_capacity_inv _ U I2) as (I3 & D3 & M3 & _).
+        assert (Hm3 : nlookup h (mems (check_capacity (register B h))) = Some (f, m)).
+        { rewrite M3. unfold register. destruct (nmem h (reg B)); exact Hm. }
+        rewrite Hm3, Hc, merge_same.
+        assert (EmU : merge_opt merge m (nlookup f (files U)) = m).
+        { destruct Hcd as [[_ [Hu|[Hu _]]]|Hu]; rewrite Hu; simpl; try apply merge_same; reflexivity. }
+        rewrite EmU. split; [reflexivity|]. split; [|split; [rewrite set_mem_lookup, N.eqb_refl; reflexivity|split; [|exact Hobj]]].
+        * split; [apply set_mem_id_inv; assumption|]. simpl. rewrite D3. unfold register. destruct (nmem h (reg B)); simpl; rewrite Ed; discriminate.
+        * simpl. rewrite D3. unfold register. destruct (nmem h (reg B)); simpl; exact Ed.
+      + (* first access in this block: the entry is created from the file *)
+        destruct (hinv_noentry_load B U f m Hh He) as (Em & Hobj & Hv & Hst).
+        set (m1 := merge_opt merge m (nlookup f (files B))) in *.
+        set (B1 := with_buf (set_mem B h f m1) (nset f {| b_contents := m1; b_hash := m1 |} (buf B))).
+        set (U1 := set_mem U h f m1).
+        assert (I2 : Inv0 (register B1 h) U1).
+        { apply (Inv0_update B U _ _ h f m m1 I Hm).
+          - apply (i_depthU B U I).
+          - intro x. unfold register. destruct (nmem h (reg B1)); apply set_mem_lookup.
+          - intro x. apply set_mem_lookup.
+          - intros f0 Hne. unfold register. destruct (nmem h (reg B1)); simpl; nsimp; auto.
+          - unfold hinv. split; [exact Hobj|].
+            assert (Eb : nlookup f (buf (register B1 h)) = Some {| b_contents := m1; b_hash := m1 |}).
+            { unfold register. destruct (nmem h (reg B1)); simpl; apply nlookup_nset_same. }
+            rewrite Eb. simpl.
+            assert (Ef : nlookup f (files (register B1 h)) = nlookup f (files B)).
+            { unfold register. destruct (nmem h (reg B1)); reflexivity. }
+            rewrite Ef. split; [reflexivity|].
+            destruct Hst as [[Hf Hs]|(Hfb & Hfu & Hem)].
+            + destruct (nlookup f (files U)) as [v|] eqn:Ev.
+              * pose proof (Hv v eq_refl) as Evm. subst v.
+                split; [right; exact Hf|]. left. split; [reflexivity|left; reflexivity].
+              * simpl in Hs. split; [left; split; [exact Hf|right; exact Hs]|]. left. split; [reflexivity|right; auto].
+            + split; [left; split; [exact Hfb|right; exact Hem]|]. left. split; [reflexivity|left; exact Hfu].
+          - intros x Hx. apply register_mono. exact Hx.
+          - intros e0 _. apply in_register. }
+        assert (Eb2 : nlookup f (buf (register B1 h)) = Some {| b_contents := m1; b_hash := m1 |}).
+        { unfold register. destruct (nmem h (reg B1)); simpl; apply nlookup_nset_same. }
+        rewrite Eb2. simpl b_contents.
+        destruct (check_capacity_inv _ U1 I2) as (I3 & D3 & M3 & _).
+        assert (Hm3 : nlookup h (mems (check_capacity (register B1 h))) = Some (f, m1)).
+        { rewrite M3. unfold register. destruct (nmem h (reg B1)); unfold B1; simpl; apply nlookup_nset_same. }
+        rewrite Hm3, merge_same. rewrite Em.
+        split; [reflexivity|]. split; [|split; [rewrite set_mem_lookup, N.eqb_refl; reflexivity|split; [|exact Hobj]]].
+        * split.
+          -- (* U1 already holds m1 for h: one more identical write *)
+             pose proof (set_mem_id_inv _ U1 h f m1 I3 Hm3) as I4.
+             assert (EU : forall x, nlookup x (mems (set_mem U1 h f m1)) = nlookup x (mems (set_mem U h f m1))).
+             { intro x. unfold U1. rewrite !set_mem_lookup. destruct (N.eqb x h); reflexivity. }
+             constructor; try apply I4.
+             intro x. rewrite (i_mems _ _ I4 x). apply EU.
+          -- simpl. rewrite D3. unfold register. destruct (nmem h (reg B1)); simpl; rewrite Ed; discriminate.
+        * simpl. rewrite D3. unfold register. destruct (nmem h (reg B1)); simpl; exact Ed.
+  Qed.
